@@ -8,7 +8,11 @@
 // + mapping of the result.  It is checked on a window of WIN bytes with symbolic contents, symbolic length
 // 0..=WIN and a symbolic start position anywhere in the first byte, reached through *any* (bit, count) state
 // that a previous step can leave behind.  WIN = 5 holds the longest code (30 bits) from any start bit
-// (7 + 30 <= 40), so every symbol and every way of running out of input is covered: complete per step.
+// (7 + 30 <= 40), so every symbol and every way of running out of input is covered: complete per step, for
+// a window that starts in byte 0.  That the step at byte k of a longer input behaves like the step at byte 0
+// of input[k..] (the code uses `byte` only as `byte*8 + ..` and `byte + 1` against `input.len()`) is checked
+// for k = 1, 2 in the thorough tier and otherwise read off the code; inputs are shorter than 2^28 bytes
+// (u32 bit positions, see c15_huff_read_bits).
 // The recursion through the nested tables is 14 deep; unwind(16) with unwinding assertions proves that bound.
 use super::*;
 #[path = "/verif/kani/_spec.rs"]
@@ -17,9 +21,10 @@ use spec::*;
 
 const WIN: usize = 5;
 
-/// (bit, count) with bit < 8 and bit + count < 8: a window state whose end (= start of the next symbol)
-/// lies in byte 0.  `count` ranges over everything `forwards` may have stored (lookup widths 0..=5, 8 is
-/// excluded by bit + count < 8 only when bit > 0 .. see c15_bitwin_forwards for the arithmetic in general).
+/// Any window state (byte 0, bit, count) whose end - the first bit of the next symbol - lies in byte 0.
+/// decode_next only uses the state through `forwards`, which depends on bit + count alone
+/// (c15_bitwin_forwards proves that for all field values), so states ending in a later byte are the same
+/// situation shifted by whole bytes (c15_huff_decode_next_at_offset checks shifts by 1 and 2 bytes).
 fn any_state() -> (BitWindow, usize) {
     let bit: u32 = kani::any();
     let count: u32 = kani::any();
@@ -97,7 +102,9 @@ fn decode_next_case<const N: usize>(max_base: u32) {
     kani::cover!(matches!(want, SpecHuffStep::End { pad_ok: true }) && n == base as usize + 1 && off == 3);
 }
 
-// vp: props=C15,C06; tag=C15.huff.decode.symbol; kind=complete; tier=quick
+// Directly on the private `HPACK_STRING.decode_next`.  Thorough tier only because the quick tier already checks
+// the same contract one level up, through `DecodeIter::next` (c15_huff_iter_next), and each of these runs ~60 s.
+// vp: props=C15,C06; tag=C15.huff.decode.symbol.direct; kind=complete; tier=thorough
 #[kani::proof]
 #[kani::unwind(16)]
 fn c15_huff_decode_next_symbol() {
@@ -217,10 +224,14 @@ fn c15_huff_eof_short_tail_and_eos() {
     assert!(matches!(res, Some(Err(_))), "C15.huff.eof.tail: bad tail / EOS accepted");
 }
 
-// vp: props=C15,C06; tag=C15.huff.iter; kind=complete; tier=quick
-// DecodeIter::next (the step `prefix_string::decode` repeats) on every window: a symbol => Some(Ok(sym)) and
-// the iterator's own position advanced by the code length; a valid end => None; otherwise never Some(Ok(_)).
-// hpack_decode() starts at position 0.
+// vp: props=C15,C06; tag=C15.huff.decode.symbol; kind=complete; tier=quick
+// THE per-symbol contract, on `DecodeIter::next` (the step `prefix_string::decode` repeats; it calls the private
+// `HPACK_STRING.decode_next`), for every window / length / start state (see header):
+//  * the window starts with the complete code of c != EOS  <=>  Some(Ok(c)), and then the iterator's own
+//    position has advanced by exactly len(c);
+//  * 0..=7 one-bits left  =>  None (valid strings are accepted);
+//  * EOS or a cut-off code  =>  never Some(Ok(_))   (that it is Some(Err(_)): c15_huff_eof_*).
+// hpack_decode() starts at position 0.  No panic for any window (C06).
 #[kani::proof]
 #[kani::unwind(16)]
 fn c15_huff_iter_next() {
@@ -235,11 +246,11 @@ fn c15_huff_iter_next() {
     let res = it.next();
     match want {
         SpecHuffStep::Sym { sym, len } => {
-            assert!(matches!(res, Some(Ok(x)) if x == sym), "C15.huff.iter: symbol");
-            assert!(end_of(&it.bit_pos) == start + len as usize, "C15.huff.iter: advance");
+            assert!(matches!(res, Some(Ok(x)) if x == sym), "C15.huff.decode.symbol: the symbol whose code starts the window");
+            assert!(end_of(&it.bit_pos) == start + len as usize, "C15.huff.decode.advance: advanced by the code length");
         }
-        SpecHuffStep::End { pad_ok: true } => assert!(res.is_none(), "C15.huff.iter: valid end"),
-        _ => assert!(!matches!(res, Some(Ok(_))), "C15.huff.iter: no symbol"),
+        SpecHuffStep::End { pad_ok: true } => assert!(res.is_none(), "C15.huff.decode.end: valid padding ends the string"),
+        _ => assert!(!matches!(res, Some(Ok(_))), "C15.huff.decode.symbol: no symbol from EOS / a cut-off code"),
     }
     let it0 = v.hpack_decode();
     assert!(it0.bit_pos == BitWindow::new());
